@@ -108,3 +108,54 @@ Proof.
     split; [apply zleak_by_length; reflexivity|]. split; [reflexivity|].
     exists 6%positive. split; [reflexivity|]. vm_compute. discriminate.
 Qed.
+
+(** ** Refutation: seeded/C14b - `binary_ternary` with the guards created after both `?`
+
+    [exz3]: three variables; tautology chain 1 = (2, [Base, Base]), 2 = (1, [1, 1]),
+    3 = (0, [2, 2]) (owner 1); x0 = 4 = (0, [2, Empty]); 5 = (1, [1, Empty]);
+    x1 = 6 = (0, [5, 5]); 7 = (2, [Base, Empty]); 8 = (1, [7, 7]); x2 = 9 = (0, [8, 8]);
+    thread 0 owns x0, x1, x2 and node 5.  ite(x2, x0, 5): g = x0 and f = x2 are on the top
+    level, h = 5 is below: `binary_ternary(apply_intsec, (fhi, ghi), apply_ite, (flo, glo, h))`;
+    with 9 slots (store full) the intersection is a unique-table hit (a new owned edge,
+    no allocation) and the ite branch runs out of memory. *)
+
+Definition exz3 : cst := mkCst
+  [ (9%positive, mkC 0 [zN 8; zN 8] 1%N);
+    (8%positive, mkC 1 [zN 7; zN 7] 2%N);
+    (7%positive, mkC 2 [zT1; zT0] 2%N);
+    (6%positive, mkC 0 [zN 5; zN 5] 1%N);
+    (5%positive, mkC 1 [zN 1; zT0] 3%N);
+    (4%positive, mkC 0 [zN 2; zT0] 1%N);
+    (3%positive, mkC 0 [zN 2; zN 2] 1%N);
+    (2%positive, mkC 1 [zN 1; zN 1] 4%N);
+    (1%positive, mkC 2 [zT1; zT1] 4%N) ]
+  [ (0, zN 4); (0, zN 6); (0, zN 9); (0, zN 5); (1, zN 1); (1, zN 2); (1, zN 3) ].
+
+Example exz3_inv : CInv KZbdd zterms 3 exz3.
+Proof. apply cinv_b_spec. vm_compute. reflexivity. Qed.
+
+(** the leak without a new node: one token more than before, and after the collection
+    some node's entry (its count) is not the one a collection of the original state
+    yields *)
+Theorem ownz_balance_late_bt_refuted : forall p,
+  (match zite_on zterms 3 0 9 p guards_late_bt exz3 (RN 9) (RN 4) (RN 5) with
+   | EErr s' _ =>
+       ~ Permutation (cown s') (cown exz3) /\
+       length (cown s') = S (length (cown exz3)) /\
+       exists id, cfind (cn (collect KZbdd zterms 3 s')) id <> cfind (cn (collect KZbdd zterms 3 exz3)) id
+   | _ => False
+   end) /\
+  kown_post KZbdd zterms 3 0 unit exz3 (zite_on zterms 3 0 9 p guards_code exz3 (RN 9) (RN 4) (RN 5)) /\
+  eres_code (zite_on zterms 3 0 9 p guards_code exz3 (RN 9) (RN 4) (RN 5)) = 1.
+Proof.
+  intros p. split; [|split; [apply ownz_balance_ite | destruct p; vm_compute; reflexivity]].
+  destruct p.
+  - remember (zite_on zterms 3 0 9 true guards_late_bt exz3 (RN 9) (RN 4) (RN 5)) as o eqn:Eo.
+    vm_compute in Eo. subst o.
+    split; [apply zleak_by_length; reflexivity|]. split; [reflexivity|].
+    exists 8%positive. vm_compute. discriminate.
+  - remember (zite_on zterms 3 0 9 false guards_late_bt exz3 (RN 9) (RN 4) (RN 5)) as o eqn:Eo.
+    vm_compute in Eo. subst o.
+    split; [apply zleak_by_length; reflexivity|]. split; [reflexivity|].
+    exists 8%positive. vm_compute. discriminate.
+Qed.
